@@ -337,7 +337,11 @@ def hashseed_results(sets, ctx):
         # every other interpreter works through the sets in reverse order:
         # what one call leaves behind for the next must not matter either
         r = subprocess.run([sys.executable, '-m', 'tv.hashseed_helper',
-                            rpath if k % 2 else path],
+                            rpath if k % 2 else path]
+                           # ... and in every other one each set is first
+                           # extracted once with full_escape the other way
+                           # round (result discarded)
+                           + (['flip'] if k % 2 else []),
                            env=env, stdout=subprocess.PIPE,
                            stderr=subprocess.PIPE, text=True, timeout=1800)
         if r.returncode != 0:
